@@ -81,6 +81,17 @@ def build(ctx, pkg='./cmd/drive', name='drive', race=False, tags='verif'):
     return exe
 
 
+def build_cli(ctx):
+    """The zlint command-line tool, built from /repo's working tree."""
+    os.makedirs(os.path.join(OUT, 'bin'), exist_ok=True)
+    suffix = hashlib.md5(REPO.encode()).hexdigest()[:6] if REPO != '/repo' else ''
+    exe = os.path.join(OUT, 'bin', 'zlint' + suffix)
+    rc, out = sh(['go', 'build', '-o', exe, './cmd/zlint'], cwd=os.path.join(REPO, 'v3'), timeout=1200)
+    if rc != 0:
+        raise Inconclusive('CLI build failed:\n' + out[-3000:])
+    return exe
+
+
 def extract(ctx):
     """Static facts about /repo's working tree (go/packages + SSA); cached per check run."""
     exe = os.path.join(OUT, 'bin', 'extract')
